@@ -51,6 +51,8 @@ import (
 	"log"
 	"os"
 	"runtime"
+	"runtime/debug"
+	"strings"
 	"slices"
 	_ "unsafe"
 
@@ -458,6 +460,41 @@ func loc(fset *token.FileSet, pos token.Pos) string {
 // and lexical environment env, returning its result.
 // callpos is the position of the callsite.
 func callSSA(i *interpreter, caller *frame, callpos token.Pos, fn *ssa.Function, args []value, env []value) value {
+	if i.building {
+		return callTolerant(i, caller, callpos, fn, args, env)
+	}
+	if i.eng.isPure(fn) {
+		return i.run.summarize(i, caller, callpos, fn, args, env)
+	}
+	return callSSABody(i, caller, callpos, fn, args, env)
+}
+
+// callTolerant is used while running shared package initialisers: a callee
+// that cannot be executed (missing body, reflection/unsafe tricks, run-time
+// panic) yields the zero value of its result type and initialisation goes on.
+func callTolerant(i *interpreter, caller *frame, callpos token.Pos, fn *ssa.Function, args []value, env []value) (res value) {
+	defer func() {
+		if p := recover(); p != nil {
+			if pa, ok := p.(pathAbort); ok && pa.reason != "unsupported" && pa.reason != "engine-panic" {
+				panic(p)
+			}
+			if caller != nil {
+				caller.panicking = false
+			}
+			i.eng.initSkipped(fn.String(), fmt.Sprint(p))
+			r := fn.Signature.Results()
+			switch r.Len() {
+			case 0:
+				res = nil
+			default:
+				res = zero(r)
+			}
+		}
+	}()
+	return callSSABody(i, caller, callpos, fn, args, env)
+}
+
+func callSSABody(i *interpreter, caller *frame, callpos token.Pos, fn *ssa.Function, args []value, env []value) value {
 	if i.mode&EnableTracing != 0 {
 		fset := fn.Prog.Fset
 		// TODO(adonovan): fix: loc() lies for external functions.
@@ -549,7 +586,7 @@ func runFrame(fr *frame) {
 			panic(p)
 		}
 		if _, ok := p.(targetPanic); !ok {
-			fr.i.run.noteRuntimePanic(fr, p)
+			p = fr.i.run.classifyPanic(fr, p)
 		}
 		fr.panicking = true
 		fr.panic = p
@@ -663,4 +700,43 @@ func mustDeref(t types.Type) types.Type {
 		return p.Elem()
 	}
 	panic(fmt.Sprintf("mustDeref: %v is not a pointer", t))
+}
+
+// rtNoted is a run-time panic of the target that has been recorded already.
+type rtNoted struct{ msg string }
+
+func (e rtNoted) Error() string { return e.msg }
+func (e rtNoted) RuntimeError() {}
+
+// classifyPanic separates genuine run-time panics of the interpreted program
+// from failures of the interpreter itself (which end the path as engine errors).
+func (r *pathRun) classifyPanic(fr *frame, p any) any {
+	switch x := p.(type) {
+	case rtNoted:
+		return x
+	case rtError:
+		r.noteRuntimePanic(fr, x)
+		return rtNoted{x.Error()}
+	case *runtime.TypeAssertionError:
+		panic(pathAbort{"engine-panic", x.Error() + "\n" + string(debug.Stack())})
+	case runtime.Error:
+		msg := x.Error()
+		if strings.Contains(msg, "nil pointer dereference") || strings.Contains(msg, "index out of range") || strings.Contains(msg, "slice bounds out of range") || strings.Contains(msg, "nil map") || strings.Contains(msg, "divide by zero") {
+			r.noteRuntimePanic(fr, x)
+			if os.Getenv("VP_DEBUG") == "2" {
+				fmt.Fprintf(os.Stderr, "host runtime error treated as target panic: %s\n%s\n", msg, debug.Stack())
+			}
+			return rtNoted{msg}
+		}
+		panic(pathAbort{"engine-panic", msg + "\n" + string(debug.Stack())})
+	case string:
+		for _, ok := range []string{"method invoked on nil interface", "interface conversion:", "call of nil function", "array length is greater", "comparing uncomparable", "unhashable type"} {
+			if strings.HasPrefix(x, ok) {
+				r.noteRuntimePanic(fr, x)
+				return rtNoted{"runtime error: " + x}
+			}
+		}
+		panic(pathAbort{"engine-panic", x + "\n" + string(debug.Stack())})
+	}
+	panic(pathAbort{"engine-panic", fmt.Sprintf("%T %v", p, p) + "\n" + string(debug.Stack())})
 }
